@@ -236,10 +236,13 @@ pub enum Fault {
     TimedOut,
     /// 300 consecutive `Interrupted` answers at one position (one deviation)
     IntrBurst,
+    /// `Err(ErrorKind::UnexpectedEof)` from the source: end of input by the library's own
+    /// classification, but the source carries on afterwards
+    ErrEof,
     Eof,
 }
 impl Fault {
-    const ALL: [Fault; 7] = [Fault::WouldBlock, Fault::Interrupted, Fault::Other, Fault::BrokenPipe, Fault::TimedOut, Fault::IntrBurst, Fault::Eof];
+    const ALL: [Fault; 8] = [Fault::WouldBlock, Fault::Interrupted, Fault::Other, Fault::BrokenPipe, Fault::TimedOut, Fault::IntrBurst, Fault::ErrEof, Fault::Eof];
     /// what an `embedded_hal::serial::Read` can answer besides a byte
     const EH: [Fault; 2] = [Fault::WouldBlock, Fault::Other];
     fn token(self) -> &'static str {
@@ -250,6 +253,7 @@ impl Fault {
             Fault::BrokenPipe => "BrokenPipe",
             Fault::TimedOut => "TimedOut",
             Fault::IntrBurst => "InterruptedX300",
+            Fault::ErrEof => "ErrUnexpectedEof",
             Fault::Eof => "Eof",
         }
     }
@@ -289,6 +293,7 @@ impl<'a> std::io::Read for SchedRead<'a> {
                     self.burst_left = 299;
                     return Err(Error::new(ErrorKind::Interrupted, "intr"));
                 }
+                Fault::ErrEof => return Err(Error::new(ErrorKind::UnexpectedEof, "eof")),
                 Fault::WouldBlock => return Err(Error::new(ErrorKind::WouldBlock, "wb")),
                 Fault::Interrupted => return Err(Error::new(ErrorKind::Interrupted, "intr")),
                 Fault::Other => return Err(Error::new(ErrorKind::Other, "other")),
@@ -508,6 +513,15 @@ fn drive_ref(stream: &[u8], sched: &[(usize, Fault)], drv: Driver, max_calls: us
             match fault {
                 Some(Fault::WouldBlock) => break Some(Ev::Io(IoK::WouldBlock, 0)),
                 Some(Fault::Interrupted) | Some(Fault::IntrBurst) => continue,
+                Some(Fault::ErrEof) => {
+                    // classified as end of input: pending bytes are given up and reported, nothing
+                    // pending means the iterator-style end signal; the source itself goes on
+                    let n = seg.unacc[p];
+                    seg_from += p;
+                    seg = segment(&stream[seg_from..]);
+                    p = 0;
+                    break if n == 0 && is_next { None } else { Some(Ev::Io(IoK::Eof, n)) };
+                }
                 Some(Fault::Other) | Some(Fault::BrokenPipe) | Some(Fault::TimedOut) => {
                     let n = seg.unacc[p];
                     seg_from += p;
@@ -1151,6 +1165,40 @@ pub fn run_c10(tier: Tier) -> ! {
             }
         }
     }
+    // the `SmlParse<&[u8]>` adapters used when the caller has the payload already: identical to
+    // calling the parsers directly (pool payloads, their truncations and single-byte corruptions)
+    let mut adapter_viols = vec![];
+    let mut adapter_runs = 0u64;
+    for (b, _) in &pool {
+        let mut inputs: Vec<Vec<u8>> = vec![b.clone()];
+        for k in 0..b.len() {
+            inputs.push(b[..k].to_vec());
+            let mut x = b.clone();
+            x[k] ^= 0x21;
+            inputs.push(x);
+        }
+        for x in inputs {
+            use sml_rs::SmlParse;
+            adapter_runs += 1;
+            let direct_file = sml_rs::parser::complete::parse(&x).map(|f| from_complete(&f)).map_err(|e| kind(&e));
+            let via_file = <File as SmlParse<&[u8]>>::parse_from(&x).map(|f| from_complete(&f)).map_err(|e| kind(&e));
+            let direct_ev = conv_parser::<sml_rs::util::Eof>(Ok(Parser::new(&x)));
+            let via_ev = match <Parser as SmlParse<&[u8]>>::parse_from(&x) {
+                Ok(p) => conv_parser::<sml_rs::util::Eof>(Ok(p)),
+                Err(_) => Res::End,
+            };
+            let via_bytes = <DecodedBytes as SmlParse<&[u8]>>::parse_from(&x).map(|b| b.to_vec()).ok();
+            if direct_file != via_file || direct_ev != via_ev || via_bytes.as_deref() != Some(&x[..]) {
+                adapter_viols.push(Viol {
+                    class: "C10 SmlParse::parse_from(&[u8]) differs from calling the parser directly".into(),
+                    key: format!("adapter:{}", hex(&x[..x.len().min(40)])),
+                    what: format!("input {}: File {:?} vs {:?}", hex(&x[..x.len().min(60)]), via_file.as_ref().map(|f| f.len()), direct_file.as_ref().map(|f| f.len())),
+                    case: J::obj().set("engine", "e3").set("check", "C10adapter").set("input", hex(&x)),
+                    size: x.len(),
+                });
+            }
+        }
+    }
     let kmax = tier.pick(2usize, 3);
     let np = pool.len();
     let nn = NOISE.len();
@@ -1227,6 +1275,10 @@ pub fn run_c10(tier: Tier) -> ! {
         tally.merge(t);
         counts.merge(&c);
     }
+    for v in adapter_viols {
+        tally.add(v);
+    }
+    counts.addn("SmlParse::parse_from(&[u8]) comparisons", adapter_runs);
     {
         let (vs, n) = c10_bigfile(&pool);
         for v in vs {
@@ -1279,6 +1331,21 @@ pub fn replay(case: &J) -> Vec<Viol> {
                 .collect();
             let eh = case.get("source").and_then(|x| x.as_str()) == Some("embedded-hal");
             c11_case(&s, &sched, drv, eh, &mut out, &mut c);
+        }
+        Some("C10adapter") => {
+            use sml_rs::SmlParse;
+            let x = case.get("input").and_then(|p| p.as_str()).and_then(unhex).unwrap_or_default();
+            let direct_file = sml_rs::parser::complete::parse(&x).map(|f| from_complete(&f)).map_err(|e| kind(&e));
+            let via_file = <File as SmlParse<&[u8]>>::parse_from(&x).map(|f| from_complete(&f)).map_err(|e| kind(&e));
+            let direct_ev = conv_parser::<sml_rs::util::Eof>(Ok(Parser::new(&x)));
+            let via_ev = match <Parser as SmlParse<&[u8]>>::parse_from(&x) {
+                Ok(p) => conv_parser::<sml_rs::util::Eof>(Ok(p)),
+                Err(_) => Res::End,
+            };
+            let via_bytes = <DecodedBytes as SmlParse<&[u8]>>::parse_from(&x).map(|b| b.to_vec()).ok();
+            if direct_file != via_file || direct_ev != via_ev || via_bytes.as_deref() != Some(&x[..]) {
+                out.push(Viol { class: "C10 SmlParse::parse_from(&[u8]) differs from calling the parser directly".into(), key: "adapter".into(), what: String::new(), case: case.clone(), size: x.len() });
+            }
         }
         Some("C10big") => {
             out.extend(c10_bigfile(&c10_pool()).0);
